@@ -67,7 +67,7 @@ class RatFuncCompuMethod(CompuMethod):
         if len(int_to_phys_scales) != 1:
             odxraise("RAT-FUNC compu methods expect exactly one compu scale within "
                      "COMPU-INTERNAL-TO-PHYS")
-            return cast(None, RatFuncCompuMethod)
+            return cast(RatFuncCompuMethod, None)
 
         self._int_to_phys_segment = RatFuncSegment.from_compu_scale(
             int_to_phys_scales[0], value_type=self.physical_type)
@@ -78,7 +78,7 @@ class RatFuncCompuMethod(CompuMethod):
             if len(phys_to_int_scales) != 1:
                 odxraise("RAT-FUNC compu methods expect exactly one compu scale within "
                          "COMPU-PHYS-TO-INTERNAL")
-                return cast(None, RatFuncCompuMethod)
+                return cast(RatFuncCompuMethod, None)
 
             self._phys_to_int_segment = RatFuncSegment.from_compu_scale(
                 phys_to_int_scales[0], value_type=self.internal_type)
